@@ -49,7 +49,7 @@ Section Changelog.
   Fixpoint header_loop (ls : list str) : res str :=
     match ls with
     | [] => REof
-    | l :: r => if str_eqb l [] then header_loop r
+    | l :: r => if str_eqb (ctrim l) [] then header_loop r       (* empty, or white space only (repair 1f7ffc5) *)
                 else if negb (starts_sp l) then ROk (lf l) r else RErr
     end.
 
@@ -97,21 +97,44 @@ Section Changelog.
   Lemma ctrim_nl : ctrim (lf []) = [].
   Proof. reflexivity. Qed.
 
+  Lemma ctrim_left_nil x : ctrim_left x = [] -> forallb cut x = true.
+  Proof. induction x as [|c r IH]; cbn; [reflexivity|]. destruct (cut c); [exact IH|discriminate]. Qed.
+  Lemma ctrim_left_all x : forallb cut x = true -> ctrim_left x = [].
+  Proof. induction x as [|c r IH]; cbn; [reflexivity|]. destruct (cut c); [exact IH|discriminate]. Qed.
+  Lemma ctrim_left_head x c r : ctrim_left x = c :: r -> cut c = false.
+  Proof. induction x as [|a x IH]; cbn; [discriminate|]. destruct (cut a) eqn:E; [exact IH|]. intros H. inversion H; subst. exact E. Qed.
+  Lemma forallb_rev (f : ascii -> bool) x : forallb f (rev x) = forallb f x.
+  Proof. induction x as [|a x IH]; [reflexivity|]. cbn [rev forallb]. rewrite forallb_app, IH. cbn. now rewrite andb_true_r, andb_comm. Qed.
+  Lemma ctrim_nil x : ctrim x = [] -> forallb cut x = true.
+  Proof.
+    unfold ctrim. intros H. assert (E : ctrim_left (rev (ctrim_left x)) = []).
+    { apply (f_equal (@rev ascii)) in H. rewrite rev_involutive in H. exact H. }
+    apply ctrim_left_nil in E. rewrite forallb_rev in E.
+    destruct (ctrim_left x) as [|c r] eqn:L; [now apply ctrim_left_nil|].
+    pose proof (ctrim_left_head x c r L) as Hc. cbn in E. rewrite Hc in E. discriminate.
+  Qed.
+  Lemma ctrim_all x : forallb cut x = true -> ctrim x = [].
+  Proof. intros H. unfold ctrim. now rewrite (ctrim_left_all x H). Qed.
+  (* a line of white space is white space with its newline too *)
+  Lemma ctrim_lf_nil l : ctrim l = [] -> ctrim (lf l) = [].
+  Proof. intros H. apply ctrim_all. unfold lf. rewrite forallb_app, (ctrim_nil l H). reflexivity. Qed.
+
   Lemma header_loop_ok ls h r : header_loop ls = ROk h r ->
     (headers ls <= S (headers r))%nat /\ (List.length r < List.length ls)%nat.
   Proof.
     induction ls as [|l ls IH]; cbn [header_loop]; [discriminate|].
-    destruct (str_eqb_spec l []) as [->|Hne].
-    - intros H. destruct (IH H) as [A B]. unfold headers in *. cbn [filter]. unfold is_header at 1. rewrite ctrim_nl.
-      cbn. split; [exact A|lia].
+    destruct (str_eqb_spec (ctrim l) []) as [El|Hne].
+    - intros H. destruct (IH H) as [A B]. unfold headers in *. cbn [filter]. unfold is_header at 1. rewrite (ctrim_lf_nil l El).
+      cbn [str_eqb]. destruct (list_eq_dec ascii_dec [] []); [|congruence]. cbn [negb]. rewrite andb_false_r. cbn [List.length]. split; [exact A|lia].
     - destruct (starts_sp l) eqn:S; cbn [negb]; [discriminate|]. intros H. inversion H; subst.
       unfold headers. cbn [filter]. destruct (is_header l); cbn [List.length]; split; lia.
   Qed.
   Lemma header_loop_eof ls : header_loop ls = REof -> headers ls = 0%nat.
   Proof.
     induction ls as [|l ls IH]; cbn [header_loop]; [reflexivity|].
-    destruct (str_eqb_spec l []) as [->|Hne].
-    - intros H. unfold headers in *. cbn [filter]. unfold is_header at 1. rewrite ctrim_nl. cbn. now apply IH.
+    destruct (str_eqb_spec (ctrim l) []) as [El|Hne].
+    - intros H. unfold headers in *. cbn [filter]. unfold is_header at 1. rewrite (ctrim_lf_nil l El).
+      cbn [str_eqb]. destruct (list_eq_dec ascii_dec [] []); [|congruence]. cbn [negb]. rewrite andb_false_r. now apply IH.
     - destruct (starts_sp l); discriminate.
   Qed.
 
